@@ -107,12 +107,14 @@ From AG Require Import ContainerOps.
 
 Inductive cop :=
 | OTake (idx : index)
+| OSel (sigma : list nat)         (* x[a:b:s], sigma = range( *slice(a,b,s).indices(len x)) read off Python *)
 | OExtR (elts : list ztree)      (* x + elts, differentiated with respect to x *)
 | OExtL (elts : list ztree).     (* elts + x *)
 
 Definition cop_apply (o : cop) (x : ztree) : option ztree :=
   match o with
   | OTake idx => take Z x idx
+  | OSel sigma => take_sel Z x sigma
   | OExtR elts => extend_right Z x elts
   | OExtL elts => extend_left Z x elts
   end.
@@ -122,6 +124,7 @@ Definition seq_len (x : ztree) : nat := match x with Seq _ l => length l | _ => 
 Definition cop_vjp (o : cop) (x g : ztree) : option ztree :=
   match o with
   | OTake idx => untake Z 0 g idx (zvspace x)
+  | OSel sigma => untake_sel Z 0 g sigma (zvspace x)
   | OExtR elts => extend_right_vjp Z 0 (seq_len x) g
   | OExtL elts => extend_left_vjp Z 0 (length elts) g
   end.
